@@ -250,7 +250,9 @@ Definition BUILTIN_NAMES : list chars := flat_map snd IMPORTS.
 Definition gen_module (S : fschema) (tm sn : chars) : pymod :=
   let body := [ {| as_target := tm; as_ann := s2l "TypeMap"; as_value := gen_type_map S tm |};
                 {| as_target := sn; as_ann := s2l "GraphQLSchema"; as_value := gen_schema S tm |} ] in
-  let used := flat_map (fun a => as_ann a :: names_of (as_value a)) body in
+  (* pyflakes reports an import that is rebound before any use as a redefinition, not as unused:
+     autoflake keeps it, so the assignment targets count as uses *)
+  let used := flat_map (fun a => as_target a :: as_ann a :: names_of (as_value a)) body in
   {| m_imports :=
        filter (fun p => match snd p with [] => false | _ => true end)
          (map (fun p => (fst p, filter (fun n => mem_chars n used) (snd p))) IMPORTS);
@@ -263,13 +265,17 @@ Fixpoint mapM {X Y : Type} (f : X -> option Y) (l : list X) : option (list Y) :=
   | x :: r => match f x, mapM f r with Some y, Some ys => Some (y :: ys) | _, _ => None end
   end.
 
-(* a global name that still means what the imports say (not shadowed by the type-map variable) *)
-Definition gname (tm : chars) (e : pyexpr) (n : string) : bool :=
-  match e with EName x => chars_eqb x (s2l n) && negb (chars_eqb x tm) | _ => false end.
+(* Is the type-map variable bound yet?  The dict display of the first assignment is evaluated
+   BEFORE the variable is bound (its constructor calls see the imports even when the variable has the
+   name of an import); lambda bodies and the whole second assignment are evaluated after.
+   [gname b tm e n]: e is the global name n and still means the import n. *)
+Definition gname (b : bool) (tm : chars) (e : pyexpr) (n : string) : bool :=
+  match e with EName x => chars_eqb x (s2l n) && negb (b && chars_eqb x tm) | _ => false end.
 
-Definition as_call (tm : chars) (f : string) (e : pyexpr) : option (list pyexpr * list (chars * pyexpr)) :=
+Definition as_call (b : bool) (tm : chars) (f : string) (e : pyexpr)
+  : option (list pyexpr * list (chars * pyexpr)) :=
   match e with
-  | ECall h args kw => if gname tm h f then Some (args, kw) else None
+  | ECall h args kw => if gname b tm h f then Some (args, kw) else None
   | _ => None
   end.
 
@@ -281,8 +287,8 @@ Definition ev_optstr (e : pyexpr) : option (option chars) :=
   match lit e with Some (PStr s) => Some (Some s) | Some PNone => Some None | _ => None end.
 Definition ev_bool (e : pyexpr) : option bool :=
   match lit e with Some (PBool b) => Some b | _ => None end.
-Definition ev_default (tm : chars) (e : pyexpr) : option (option pyval) :=
-  if gname tm e "Undefined" then Some None
+Definition ev_default (b : bool) (tm : chars) (e : pyexpr) : option (option pyval) :=
+  if gname b tm e "Undefined" then Some None
   else match lit e with Some v => Some (Some v) | None => None end.
 
 Definition kw (k : string) (kws : list (chars * pyexpr)) : option pyexpr := assoc (s2l k) kws.
@@ -299,30 +305,32 @@ Definition as_dict (e : pyexpr) : option (list (chars * pyexpr)) :=
   | EConst _ => match lit e with Some (PDict []) => Some [] | _ => None end
   | _ => None
   end.
-Definition unthunk (e : pyexpr) : pyexpr := match e with ELambda b => b | _ => e end.
+(* a thunk is evaluated later (type-map variable bound); anything else where it stands *)
+Definition unthunk (b : bool) (e : pyexpr) : bool * pyexpr :=
+  match e with ELambda body => (true, body) | _ => (b, e) end.
 
 (* what the type map binds a key to: the class of the object and its name attribute *)
 Definition env := list (chars * (chars * chars)).
 
-(* cast(Cls, tm[key]) or a standard scalar constant -> the name of the referenced type.
-   The cast is checked against the class of the object found (stricter than Python: a wrong
-   cast is harmless at run time). *)
-Definition ev_tm_get (tm : chars) (E : env) (e : pyexpr) : option (chars * chars) :=
+Definition ev_tm_get (b : bool) (tm : chars) (E : env) (e : pyexpr) : option (chars * chars) :=
   match e with
   | ESub (EName x) k =>
-      if chars_eqb x tm then
+      if b && chars_eqb x tm then
         match ev_str k with Some key => assoc key E | None => None end
       else None
   | _ => None
   end.
 
-Definition ev_ref (tm : chars) (E : env) (e : pyexpr) : option chars :=
+(* cast(Cls, tm[key]) or a standard scalar constant -> the name of the referenced type.
+   The cast is checked against the class of the object found (stricter than Python: a wrong
+   cast is harmless at run time). *)
+Definition ev_ref (b : bool) (tm : chars) (E : env) (e : pyexpr) : option chars :=
   match e with
-  | EName c => if chars_eqb c tm then None else std_of_const c
+  | EName c => if b && chars_eqb c tm then None else std_of_const c
   | _ =>
-      match as_call tm "cast" e with
+      match as_call b tm "cast" e with
       | Some ([EName cls; x], []) =>
-          match ev_tm_get tm E x with
+          match ev_tm_get b tm E x with
           | Some (cls', nm) => if chars_eqb cls cls' then Some nm else None
           | None => None
           end
@@ -330,21 +338,21 @@ Definition ev_ref (tm : chars) (E : env) (e : pyexpr) : option chars :=
       end
   end.
 
-Fixpoint ev_type (tm : chars) (E : env) (e : pyexpr) : option gtype :=
+Fixpoint ev_type (b : bool) (tm : chars) (E : env) (e : pyexpr) : option gtype :=
   match e with
   | ECall (EName f) [x] [] =>
-      if chars_eqb f tm then None
-      else if chars_eqb f (s2l "GraphQLList") then option_map TList (ev_type tm E x)
-      else if chars_eqb f (s2l "GraphQLNonNull") then option_map TNonNull (ev_type tm E x)
+      if b && chars_eqb f tm then None
+      else if chars_eqb f (s2l "GraphQLList") then option_map TList (ev_type b tm E x)
+      else if chars_eqb f (s2l "GraphQLNonNull") then option_map TNonNull (ev_type b tm E x)
       else None
-  | _ => option_map TNamed (ev_ref tm E e)
+  | _ => option_map TNamed (ev_ref b tm E e)
   end.
 
-Definition ev_arg (cls : string) (tm : chars) (E : env) (p : chars * pyexpr) : option farg :=
-  match as_call tm cls (snd p) with
+Definition ev_arg (cls : string) (b : bool) (tm : chars) (E : env) (p : chars * pyexpr) : option farg :=
+  match as_call b tm cls (snd p) with
   | Some ([t], kws) =>
-      match ev_type tm E t,
-            match kw "default_value" kws with None => Some None | Some e => ev_default tm e end,
+      match ev_type b tm E t,
+            match kw "default_value" kws with None => Some None | Some e => ev_default b tm e end,
             kw_optstr "description" kws, kw_optstr "deprecation_reason" kws with
       | Some ty, Some d, Some ds, Some dp =>
           Some {| a_name := fst p; a_type := ty; a_default := d; a_desc := ds; a_depr := dp |}
@@ -353,14 +361,14 @@ Definition ev_arg (cls : string) (tm : chars) (E : env) (p : chars * pyexpr) : o
   | _ => None
   end.
 
-Definition ev_args (cls : string) (tm : chars) (E : env) (e : pyexpr) : option (list farg) :=
-  match as_dict e with Some kv => mapM (ev_arg cls tm E) kv | None => None end.
+Definition ev_args (cls : string) (b : bool) (tm : chars) (E : env) (e : pyexpr) : option (list farg) :=
+  match as_dict e with Some kv => mapM (ev_arg cls b tm E) kv | None => None end.
 
-Definition ev_field (tm : chars) (E : env) (p : chars * pyexpr) : option ffield :=
-  match as_call tm "GraphQLField" (snd p) with
+Definition ev_field (b : bool) (tm : chars) (E : env) (p : chars * pyexpr) : option ffield :=
+  match as_call b tm "GraphQLField" (snd p) with
   | Some ([t], kws) =>
-      match ev_type tm E t,
-            match kw "args" kws with None => Some [] | Some e => ev_args "GraphQLArgument" tm E e end,
+      match ev_type b tm E t,
+            match kw "args" kws with None => Some [] | Some e => ev_args "GraphQLArgument" b tm E e end,
             kw_optstr "description" kws, kw_optstr "deprecation_reason" kws with
       | Some ty, Some ar, Some ds, Some dp =>
           Some {| f_name := fst p; f_type := ty; f_args := ar; f_desc := ds; f_depr := dp |}
@@ -369,19 +377,26 @@ Definition ev_field (tm : chars) (E : env) (p : chars * pyexpr) : option ffield 
   | _ => None
   end.
 
-Definition ev_fields (tm : chars) (E : env) (e : pyexpr) : option (list ffield) :=
-  match as_dict (unthunk e) with Some kv => mapM (ev_field tm E) kv | None => None end.
+Definition ev_fields (b0 : bool) (tm : chars) (E : env) (e : pyexpr) : option (list ffield) :=
+  let '(b, body) := unthunk b0 e in
+  match as_dict body with Some kv => mapM (ev_field b tm E) kv | None => None end.
+
+Definition ev_input_fields (b0 : bool) (tm : chars) (E : env) (e : pyexpr) : option (list farg) :=
+  let '(b, body) := unthunk b0 e in
+  match as_dict body with Some kv => mapM (ev_arg "GraphQLInputField" b tm E) kv | None => None end.
 
 (* (lambda:)? cast(List[Ann], [tm[k], ...])  |  []  ; every element must be of class Ann *)
-Definition ev_type_list (tm : chars) (E : env) (ann : string) (e : pyexpr) : option (list chars) :=
-  let b := unthunk e in
-  match b with
-  | EConst _ => match lit b with Some (PList []) => Some [] | _ => None end
+Definition ev_type_list (b0 : bool) (tm : chars) (E : env) (ann : string) (e : pyexpr) : option (list chars) :=
+  let '(b, body) := unthunk b0 e in
+  match body with
+  | EConst _ => match lit body with Some (PList []) => Some [] | _ => None end
   | _ =>
-      match as_call tm "cast" b with
+      match as_call b tm "cast" body with
       | Some ([ESub l a; EList xs], []) =>
-          if gname tm l "List" && gname tm a ann then
-            mapM (fun x => match ev_tm_get tm E x with
+          (* typing.List[x] accepts any x at run time: only List itself must still be the import;
+             the annotation is compared textually (checked cast, as in ev_ref) *)
+          if gname b tm l "List" && gname false tm a ann then
+            mapM (fun x => match ev_tm_get b tm E x with
                            | Some (cls, nm) => if chars_eqb cls (s2l ann) then Some nm else None
                            | None => None end) xs
           else None
@@ -389,8 +404,8 @@ Definition ev_type_list (tm : chars) (E : env) (ann : string) (e : pyexpr) : opt
       end
   end.
 
-Definition ev_enum_value (tm : chars) (p : chars * pyexpr) : option fenumval :=
-  match as_call tm "GraphQLEnumValue" (snd p) with
+Definition ev_enum_value (b : bool) (tm : chars) (p : chars * pyexpr) : option fenumval :=
+  match as_call b tm "GraphQLEnumValue" (snd p) with
   | Some ([], kws) =>
       match match kw "value" kws with None => Some PNone | Some e => lit e end,
             kw_optstr "description" kws, kw_optstr "deprecation_reason" kws with
@@ -405,11 +420,13 @@ Definition TYPE_CLASSES : list string :=
   ["GraphQLScalarType"; "GraphQLObjectType"; "GraphQLInterfaceType"; "GraphQLUnionType";
    "GraphQLEnumType"; "GraphQLInputObjectType"].
 
-(* class and name attribute of a named-type constructor call (first pass: builds the env) *)
-Definition ev_type_head (tm : chars) (e : pyexpr) : option (chars * chars) :=
+(* class and name attribute of a named-type constructor call (first pass: builds the env).
+   These calls sit in the dict display of the first assignment: evaluated before the type-map
+   variable is bound. *)
+Definition ev_type_head (e : pyexpr) : option (chars * chars) :=
   match e with
   | ECall (EName f) [] kws =>
-      if negb (chars_eqb f tm) && existsb (fun c => chars_eqb f (s2l c)) TYPE_CLASSES then
+      if existsb (fun c => chars_eqb f (s2l c)) TYPE_CLASSES then
         match kw "name" kws with
         | Some n => match ev_str n with Some nm => Some (f, nm) | None => None end
         | None => None
@@ -418,11 +435,8 @@ Definition ev_type_head (tm : chars) (e : pyexpr) : option (chars * chars) :=
   | _ => None
   end.
 
-Definition opt_list {X} (o : option (option (list X))) : option (list X) :=
-  match o with Some (Some l) => Some l | Some None => None | None => Some [] end.
-
 Definition ev_named_type (tm : chars) (E : env) (e : pyexpr) : option ftype :=
-  match e, ev_type_head tm e with
+  match e, ev_type_head e with
   | ECall _ _ kws, Some (cls, nm) =>
       match kw_optstr "description" kws with
       | None => None
@@ -430,8 +444,8 @@ Definition ev_named_type (tm : chars) (E : env) (e : pyexpr) : option ftype :=
           let mk d := Some {| t_name := nm; t_desc := ds; t_def := d |} in
           let ifaces := match kw "interfaces" kws with
                         | None => Some []
-                        | Some x => ev_type_list tm E "GraphQLInterfaceType" x end in
-          let fields := match kw "fields" kws with None => None | Some x => ev_fields tm E x end in
+                        | Some x => ev_type_list false tm E "GraphQLInterfaceType" x end in
+          let fields := match kw "fields" kws with None => None | Some x => ev_fields false tm E x end in
           if chars_eqb cls (s2l "GraphQLScalarType") then
             match kw_optstr "specified_by_url" kws with Some sb => mk (DScalar sb) | None => None end
           else if chars_eqb cls (s2l "GraphQLObjectType") then
@@ -440,22 +454,20 @@ Definition ev_named_type (tm : chars) (E : env) (e : pyexpr) : option ftype :=
             match ifaces, fields with Some i, Some f => mk (DInterface i f) | _, _ => None end
           else if chars_eqb cls (s2l "GraphQLUnionType") then
             match kw "types" kws with
-            | Some x => match ev_type_list tm E "GraphQLObjectType" x with
+            | Some x => match ev_type_list false tm E "GraphQLObjectType" x with
                         | Some m => mk (DUnion m) | None => None end
             | None => None end
           else if chars_eqb cls (s2l "GraphQLEnumType") then
             match kw "values" kws with
             | Some x => match as_dict x with
-                        | Some kv => match mapM (ev_enum_value tm) kv with
+                        | Some kv => match mapM (ev_enum_value false tm) kv with
                                      | Some vs => mk (DEnum vs) | None => None end
                         | None => None end
             | None => None end
           else
             match kw "fields" kws with
-            | Some x => match as_dict (unthunk x) with
-                        | Some kv => match mapM (ev_arg "GraphQLInputField" tm E) kv with
-                                     | Some fs => mk (DInput fs) | None => None end
-                        | None => None end
+            | Some x => match ev_input_fields false tm E x with
+                        | Some fs => mk (DInput fs) | None => None end
             | None => None end
       end
   | _, _ => None
@@ -463,12 +475,12 @@ Definition ev_named_type (tm : chars) (E : env) (e : pyexpr) : option ftype :=
 
 Definition ev_location (tm : chars) (e : pyexpr) : option chars :=
   match e with
-  | EAttr h a => if gname tm h "DirectiveLocation" then Some a else None
+  | EAttr h a => if gname true tm h "DirectiveLocation" then Some a else None
   | _ => None
   end.
 
 Definition ev_directive (tm : chars) (E : env) (e : pyexpr) : option fdirective :=
-  match as_call tm "GraphQLDirective" e with
+  match as_call true tm "GraphQLDirective" e with
   | Some ([], kws) =>
       match match kw "name" kws with Some n => ev_str n | None => None end,
             kw_optstr "description" kws,
@@ -481,7 +493,7 @@ Definition ev_directive (tm : chars) (E : env) (e : pyexpr) : option fdirective 
             | None => Some []
             | Some a => match ev_optstr a with
                         | Some None => Some []            (* args=None *)
-                        | _ => ev_args "GraphQLArgument" tm E a end
+                        | _ => ev_args "GraphQLArgument" true tm E a end
             end with
       | Some nm, Some ds, Some rp, Some ls, Some ar =>
           Some {| d_name := nm; d_desc := ds; d_rep := rp; d_locs := ls; d_args := ar |}
@@ -496,7 +508,7 @@ Definition ev_opt_ref (tm : chars) (E : env) (o : option pyexpr) : option (optio
   | Some e =>
       match ev_optstr e with
       | Some None => Some None
-      | _ => match ev_ref tm E e with Some n => Some (Some n) | None => None end
+      | _ => match ev_ref true tm E e with Some n => Some (Some n) | None => None end
       end
   end.
 
@@ -514,12 +526,12 @@ Definition eval_module (m : pymod) : option fschema :=
       match as_dict (as_value a1) with
       | None => None
       | Some tmkv =>
-          match mapM (fun p => match ev_type_head tm (snd p) with
+          match mapM (fun p => match ev_type_head (snd p) with
                                | Some h => Some (fst p, h) | None => None end) tmkv with
           | None => None
           | Some E =>
               match mapM (fun p => ev_named_type tm E (snd p)) tmkv,
-                    as_call tm "GraphQLSchema" (as_value a2) with
+                    as_call true tm "GraphQLSchema" (as_value a2) with
               | Some tys, Some ([], kws) =>
                   match kw "types" kws with
                   | Some (ECall (EAttr (EName x) v) [] []) =>
